@@ -226,7 +226,13 @@ Definition deserializePrefix (b : list N) (pfxLen afi : N) : M prefix :=
     let ipb := firstn alen (b ++ repeat 0 alen) in       (* ipBytes := make(alen); copy(ipBytes, b) *)
     match ipFromBytes ipb with
     | None => fail
-    | Some a => _ <- guard (validPfx a pfxLen) ;; ret (mkPfx a pfxLen)
+    | Some a =>
+      (* fix: an IPv6 NLRI stays IPv6 even inside ::ffff:0:0/96 (IPFromBytes would give the IPv4 address) *)
+      let a := match a with
+               | IP4 _ => if afi =? 2 then IP6 (be64 ipb) (be64 (skipn 8 ipb)) else a
+               | IP6 _ _ => a
+               end in
+      _ <- guard (validPfx a pfxLen) ;; ret (mkPfx a pfxLen)
     end.
 
 (* DecodeOptions.addPath *)
@@ -237,15 +243,16 @@ Definition addPathFor (o : options) (afi safi : N) : bool :=
 
 (* ------------------------------------------------------------------ NLRI (nlri.go, label.go) *)
 
-(* the `for {}` loop over label stack entries; pfxLen is uint8, consumed an int (fix cb347c01) *)
+(* the `for {}` loop over label stack entries; consumed is an int (fix cb347c01) *)
 Fixpoint decodeLabels (fuel : nat) (pfxLen consumed : N) (acc : list N) : M (list N * N * N) :=
   match fuel with
   | O => nofuel
   | S f =>
     '(lb, _) <- bufRead 3 ;;                               (* n is ignored by decodeLabelStackEntry *)
     let lse := nth 0 lb 0 * 65536 + nth 1 lb 0 * 256 + nth 2 lb 0 in
+    _ <- guard (24 <=? pfxLen) ;;                           (* fix: label stack within the NLRI length *)
     let consumed := consumed + 3 in
-    let pfxLen := (pfxLen + 256 - 24) mod 256 in
+    let pfxLen := pfxLen - 24 in
     if N.odd lse then ret (rev (lse :: acc), pfxLen, consumed)
     else decodeLabels f pfxLen consumed (lse :: acc)
   end.
